@@ -8,6 +8,6 @@ m = dict(id=tag, property=prop, origin='independent sub-agent given only the pro
          confirmed=dict(compiles='make rc=0' in log, suite_passes_with_change=bool(re.search(r'PASS:\s+257', log)) and bool(re.search(r'FAIL:\s+0', log)),
                         demo_fails_with_change=bool(re.search(r'with change: demonstration\s*\n(?:.*\n)*?demo rc=[1-9]', log)),
                         demo_passes_without_change=bool(re.search(r'without change: demonstration\s*\n(?:.*\n)*?demo rc=0', log)),
-                        how='tools/verify_seed.sh %s (scratch worktree /tmp/seed_%s, removed afterwards); see verify.log' % (tag, tag)),
+                        how='tools/verify_seed.sh %s (scratch worktree /tmp/seed_%s or /tmp/s2_%s for the round-2 tags, removed afterwards); see verify.log' % (tag, tag, tag.split("_")[0])),
          detected_by=detected, files=sorted(os.listdir(d)))
 json.dump(m, open(d + '/meta.json', 'w'), indent=1); print(json.dumps(m['confirmed']))
